@@ -1048,3 +1048,19 @@ impl<'de> serde::de::Visitor<'de> for DataVisitor<'_> {
         Ok(())
     }
 }
+
+#[cfg(stam_verif)]
+impl AnnotationDataSet {
+    /// Verification hook (read-only): raw slots, id maps and the key-data index of this set.
+    pub fn verif_dump(&self) -> serde_json::Value {
+        serde_json::json!({
+            "keys": self.keys.iter().map(|k| k.as_ref().map(|k| k.id().map(|s| s.to_string()))).collect::<Vec<_>>(),
+            "data": self.data.iter().map(|d| d.as_ref().map(|d| (d.id().map(|s| s.to_string()), d.key.as_usize()))).collect::<Vec<_>>(),
+            "key_idmap": self.key_idmap.verif_dump(),
+            "data_idmap": self.data_idmap.verif_dump(),
+            "key_data_map": self.key_data_map.verif_dump(),
+            "changed": self.changed(),
+            "filename": self.filename,
+        })
+    }
+}
